@@ -73,7 +73,12 @@ def parse_summary(content):
 
 
 def categorize_filenames(mapping):
-    filenames = list(mapping.values())
+    def file_index(item):
+        # the roles follow the file index in the key (`...ProductFileName01`), not the order of the lines
+        match = re.search(r"[0-9]+$", item[0])
+        return int(match.group()) if match else 0
+
+    filenames = [value for _, value in sorted(mapping.items(), key=file_index)]
     volume_directory, leader, *imagery, trailer = filenames
     return {
         "volume_directory": volume_directory,
